@@ -6,7 +6,7 @@ for l in open("/verif/properties.jsonl"):
     p = json.loads(l)
     if p["id"] == pid:
         break
-t = open("/verif/tools/prompts/seeder.md").read()
+t = open("/verif/tools/prompts/" + (sys.argv[3] if len(sys.argv) > 3 else "seeder.md")).read()
 anch = "; ".join(f"{m['name']} ({m['where']})" for m in p["anchors"]["mechanism"]) + " | observe at: " + "; ".join(p["anchors"].get("observe_at", []))
 print(t.replace("{DIR}", d).replace("{ID}", pid).replace("{TITLE}", p["title"]).replace("{STATEMENT}", p["statement"])
       .replace("{QUANT}", p["quantifier"]["text"]).replace("{WHY}", p["why_tests_cant"]).replace("{ANCHORS}", anch))
